@@ -69,7 +69,17 @@ claim("C12", "model_checking",
       "Exhaustive for the model; statistical for the code (race detector sound for executions seen). The read/write-set table is a transcription of cache.go.",
       "TLA+ lock-discipline model (CacheConc) checked by TLC; the explored client programs executed as a -race stress against the real cache", "5 C12", "cacheconc")
 
+SCHEMA_NOTE = ("Trusted: the draft-07 subset evaluator in spec/Schema.tla and tools/schema2tla.py (stops with exit 2 if the files start using a keyword it does not implement), the JSON mutation generator, TLC. gojsonschema is exercised only on the documents enumerated.")
+claim("C17", "model_checking",
+      "tools/schema2tla.py regenerates a TLA+ module from the shipped schema.json/defs.json at every run; spec/Schema.tla (a draft-07 evaluator) gives the verdict for each of ~3k (quick) documents: token documents of the SpecDoc generator, every single-position JSON mutation of the base documents (removed member, 11 wrong-typed values, 11 landmark numbers, extra member), re-marshalled struct forms and non-object documents. Every entry point (bytes as JSON and YAML, .json/.yaml files, reader, ReadAndValidate, ValidateType, Validate(*Spec)) under builtin, externally loaded, none and nil schema must agree with it (with the stated tolerance for ill-formed annotation keys).",
+      SCHEMA_NOTE, "JSON-Schema evaluator written in TLA+ over a module generated from the shipped files; TLC evaluates each document; verdicts compared with every entry point of the real validator", "5 C17, 4.6", "schema")
+claim("C18", "model_checking",
+      "For every enumerated document that the library itself accepts (hook timeouts within 0..2^32-1) the TLA+ oracle over the shipped schema files must say valid, every builtin-schema entry point must accept it, and with the builtin schema installed as Spec validator WriteSpec (.json and .yaml), ReadSpec, Refresh and ValidateFile of the written files must all succeed.",
+      SCHEMA_NOTE + " Library-valid = WriteSpec without validator succeeds.", "TLA+ schema oracle + library admission as generator filter; round trips with the schema installed as validator", "5 C18", "schema")
+
 ENGINES = [
+ {"name": "schema", "path": "tools/schema2tla.py spec/Schema.tla harness/schemaoracle.go", "serves_properties": ["C17", "C18"],
+  "kind_free_text": "draft-07 subset evaluator in TLA+ over a module generated from the shipped schema files; documents by JSON mutation; all validator entry points"},
  {"name": "cacheauto", "path": "spec/CacheAuto.tla harness/autoreplay.go harness/reconf.go", "serves_properties": ["C11", "C20", "C01"],
   "kind_free_text": "TLA+ model of the auto-refresh cache incl. kernel queues, goroutines and Configure; replay with a scheduler gate; resource probes"},
  {"name": "cacheconc", "path": "spec/CacheConc.tla harness/stress.go", "serves_properties": ["C12"],
